@@ -16,7 +16,7 @@ CLAIMED = {
    note="Trusted: gosym interpreter and its merged-map / hex-string models (validated by native replay), cvc5 --solve-bv-as-int=sum, z3. Sizes: n=4 with lists of 5 (quick), n=4..7 with lists of n+2 (thorough).",
    design="6/C06"),
  "C19": dict(
-   text="Bounded symbolic model checking of the real CalcTimeout: base symbolic in [1ns,2^62ns], views 0..70 as concrete cases and all views >= 71 as one symbolic class; assertions: result > 0, = base*2^view while that fits in int64, = the saturated maximum otherwise, never above the maximum, and CalcTimeout(view-1) <= CalcTimeout(view) for every view >= 1 (monotone by transitivity). The timer/Stop race, 'not before the timeout' and eventual delivery clauses are runtime-scheduler properties and are outside the claim.",
+   text="Bounded symbolic model checking of the real CalcTimeout: base symbolic in [1ns,2^62ns], views 0..70 as concrete cases and all views >= 71 as one symbolic class; assertions: result > 0, = base*2^view while that fits in int64, = the saturated maximum otherwise, never above the maximum, and CalcTimeout(view-1) <= CalcTimeout(view) for every view >= 1 (monotone by transitivity); plus the sequential arm / re-arm / Stop guards of the real trigger object against ghost timers with symbolic positions: an armed timer delivers exactly one trigger carrying exactly its pair, re-arming the same pair is a no-op while armed and arms again after expiry+Stop, re-arming another pair or Stop means the old pair is never delivered. Timer firings racing Stop, 'not before the timeout' and delivery latency are runtime-scheduler properties and are outside the claim.",
    note="Trusted: gosym interpreter, math.Pow(2,y) summary (native for concrete y; >= 2^64 for symbolic y >= 64), amd64 float->int conversion model, cvc5/z3.",
    design="6/C19"),
  "C02": dict(
